@@ -40,15 +40,14 @@ func (s *session) inUniverse(full string) bool {
 // judgeRPC applies the access table to one observed call.
 // disclosed says what a served real read gave away (for the report).
 func (s *session) judgeRPC(phase string, c *client, full, kind string, o rpcOutcome, disclosed string) (served bool) {
-	r := s.r
 	cfg := s.cfg
 	cs := c.cred
 	authOn := cfg.Auth != "none"
 	s.probes++
-	r.Eval()
-	r.Distinct(cfg.String(), "grpc", full, kind, cs.Name, phase)
+	s.eval()
+	s.distinct(cfg.String(), "grpc", full, kind, cs.Name, phase)
 	s.note("gRPC %s [%s] cred=%s phase=%s -> %s", full, kind, cs.Name, phase, o)
-	cnt := func(outcome string) { r.Count(fmt.Sprintf("grpc.%s.%s.%s", cfg.authName(), credClass(cs), outcome)) }
+	cnt := func(outcome string) { s.count(fmt.Sprintf("grpc.%s.%s.%s", cfg.authName(), credClass(cs), outcome)) }
 	tuple := fmt.Sprintf("grpc|%s|%s|%s", full, kind, cs.Name)
 	det := func() map[string]any {
 		return s.detail(map[string]any{"protocol": "grpc", "method": full, "request": kind, "credential": cs.Name, "phase": phase,
@@ -63,7 +62,7 @@ func (s *session) judgeRPC(phase string, c *client, full, kind string, o rpcOutc
 
 	if o.Code == codes.DeadlineExceeded || o.Code == codes.Canceled {
 		cnt("timeout")
-		r.Inconclusive(fmt.Sprintf("gRPC %s on %s (%s): %s", full, cfg, cs.Name, o))
+		s.inconclusive(fmt.Sprintf("gRPC %s on %s (%s): %s", full, cfg, cs.Name, o))
 		return false
 	}
 	if o.Transport {
@@ -75,13 +74,13 @@ func (s *session) judgeRPC(phase string, c *client, full, kind string, o rpcOutc
 			}
 		case !s.alive():
 			s.dead = true
-			r.Inconclusive(fmt.Sprintf("server %s went away at gRPC %s: %.300s", cfg, full, s.child.LogTail(300)))
+			s.inconclusive(fmt.Sprintf("server %s went away at gRPC %s: %.300s", cfg, full, s.child.LogTail(300)))
 		case cs.Valid && cfg.TLS:
 			cnt("transport-error")
-			r.Violation(key("valid-refused"), "call with valid credentials failed below gRPC (TLS) while the server is up", det())
+			s.violate(key("valid-refused"), "call with valid credentials failed below gRPC (TLS) while the server is up", det())
 		default:
 			cnt("transport-error")
-			r.Inconclusive(fmt.Sprintf("gRPC %s on %s (%s): %s", full, cfg, cs.Name, o))
+			s.inconclusive(fmt.Sprintf("gRPC %s on %s (%s): %s", full, cfg, cs.Name, o))
 		}
 		return false
 	}
@@ -89,7 +88,7 @@ func (s *session) judgeRPC(phase string, c *client, full, kind string, o rpcOutc
 	mustServe := func(failure, what string) {
 		if refused {
 			cnt("refused")
-			r.Violation(key(failure), fmt.Sprintf("%s: %s answered %s", what, full, o.Code), det())
+			s.violate(key(failure), fmt.Sprintf("%s: %s answered %s", what, full, o.Code), det())
 		} else {
 			cnt("served")
 		}
@@ -115,14 +114,13 @@ func (s *session) judgeRPC(phase string, c *client, full, kind string, o rpcOutc
 			}
 		} else {
 			cnt("SERVED-WITHOUT-CREDENTIALS")
-			r.Violation(key("unauthenticated"), fmt.Sprintf("%s without valid credentials (%s) answered %s instead of Unauthenticated", full, cs.Name, o.Code), det())
+			s.violate(key("unauthenticated"), fmt.Sprintf("%s without valid credentials (%s) answered %s instead of Unauthenticated", full, cs.Name, o.Code), det())
 		}
 	}
 	return !refused
 }
 
 func (s *session) probeGRPC(parent context.Context, phase string, c *client) {
-	r := s.r
 	ctx := c.ctx(parent)
 	authOn := s.cfg.Auth != "none"
 	cs := c.cred
@@ -230,16 +228,18 @@ func (s *session) probeGRPC(parent context.Context, phase string, c *client) {
 			return
 		}
 		// Positive control with valid credentials: the request really stores.
-		_ = served
+		if !served {
+			return // refused: already reported by judgeRPC
+		}
 		path := "/cas/" + hash
 		if kind == "ac" {
 			path = "/ac/" + hash
 		}
 		if h := s.setup.do("HEAD", path, nil); h.Status == 200 {
-			r.Count("control.grpc-write-stored")
+			s.count("control.grpc-write-stored")
 		} else {
-			r.Count("control.grpc-write-NOT-stored")
-			r.Inconclusive(fmt.Sprintf("control: %s with valid credentials answered %s but lookup %s says %d on %s", full, o, path, h.Status, s.cfg))
+			s.count("control.grpc-write-NOT-stored")
+			s.inconclusive(fmt.Sprintf("control: %s with valid credentials answered %s but lookup %s says %d on %s", full, o, path, h.Status, s.cfg))
 		}
 	}
 
@@ -285,7 +285,7 @@ func (s *session) probeGRPC(parent context.Context, phase string, c *client) {
 		whole := mkBlob(append(append([]byte{}, chunk.Data...), s.spliceCommon.Data...))
 		if s.inUniverse(mSpliceBlob) && !s.dead {
 			if p := s.setup.do("PUT", "/cas/"+chunk.Hash, chunk.Data); p.Status != 200 {
-				r.Inconclusive(fmt.Sprintf("could not store a splice chunk on %s: %d %v", s.cfg, p.Status, p.Err))
+				s.inconclusive(fmt.Sprintf("could not store a splice chunk on %s: %d %v", s.cfg, p.Status, p.Err))
 			} else {
 				write(mSpliceBlob, "cas", whole.Hash, "", func(ctx context.Context) error {
 					_, err := cas.SpliceBlob(ctx, &pb.SpliceBlobRequest{BlobDigest: whole.digest(), ChunkDigests: []*pb.Digest{chunk.digest(), s.spliceCommon.digest()}})
